@@ -510,6 +510,60 @@ pub fn revocation_claim_position<S: ShortGroupSignatureScheme>(em: &mut Emitter,
     }
 }
 
+/// the holder-side bundle API (`CredentialBundle::update_revocation_handle`): whatever the bundle recorded before — a
+/// borrowed handle, an incompletely updated one, the same registry value — storing the issuer's fresh handle makes the
+/// (never revoked) holder presentable again
+fn bundle_refresh<S: ShortGroupSignatureScheme>(em: &mut Emitter, rng: &mut Rng, suite: &str) {
+    let n_claims = 3;
+    let schema = cred_schema(n_claims, &[]);
+    let (public, mut issuer) = Issuer::<S>::new(&schema);
+    let mk = |issuer: &mut Issuer<S>, rng: &mut Rng, id: &str| issuer.sign_credential(&claim_vector(rng, n_claims, id, "N", 30));
+    let tag = rng.below(1 << 20);
+    let (mut alice, bob, carol, dave) = match (mk(&mut issuer, rng, &format!("alice-{}", tag)), mk(&mut issuer, rng, &format!("bob-{}", tag)), mk(&mut issuer, rng, &format!("carol-{}", tag)), mk(&mut issuer, rng, &format!("dave-{}", tag))) {
+        (Ok(a), Ok(b), Ok(c), Ok(d)) => (a, b, c, d),
+        _ => return,
+    };
+    let rc = |b: &CredentialBundle<S>| match &b.credential.claims[0] {
+        ClaimData::Revocation(r) => r.clone(),
+        _ => RevocationClaim::from(""),
+    };
+    // two epochs pass
+    let _ = issuer.revoke_credentials(&[rc(&carol)]);
+    let _ = issuer.revoke_credentials(&[rc(&dave)]);
+    let value = issuer.revocation_registry.value;
+    let nonce = rng.bytes(16);
+    let shows = |b: &CredentialBundle<S>| -> bool {
+        let (sch, p) = present(&public, &b.credential, b.credential.revocation_handle, b.issuer.revocation_registry, &nonce);
+        // the verifier uses the issuer's current value
+        let (sch_now, _) = present(&public, &b.credential, b.credential.revocation_handle, value, &nonce);
+        let _ = sch;
+        match p {
+            Out::Ok(p) => call(|| p.verify(&sch_now, &nonce)).is_ok(),
+            _ => false,
+        }
+    };
+    let bob_handle = match call(|| issuer.update_revocation_handle(rc(&bob))) {
+        Out::Ok(w) => w,
+        _ => return,
+    };
+    for (case, bad) in [("borrowed-handle-recorded-at-current-value", bob_handle), ("stale-handle-recorded-at-current-value", alice.credential.revocation_handle), ("identity-recorded-at-current-value", MembershipWitness(G1Projective::IDENTITY))] {
+        em.oracle_case(&format!("{} bundle-refresh {}", suite, case));
+        alice.update_revocation_handle(bad, value);
+        let before = shows(&alice);
+        match call(|| issuer.update_revocation_handle(rc(&alice))) {
+            Out::Ok(w) => {
+                alice.update_revocation_handle(w, value);
+                let after = shows(&alice);
+                em.count(&format!("bundle-refresh:{}:{}→{}", case, before, after));
+                if !after {
+                    em.violation("c06:active-cannot-present:bundle-refresh", format!("{}: a never revoked holder that stores the issuer's fresh handle in its bundle ({}) still cannot present", suite, case), json!({"suite": suite, "case": case}));
+                }
+            }
+            _ => em.violation("c06:active-refresh-failed", format!("{}: refresh of an active identifier failed", suite), json!({"suite": suite})),
+        }
+    }
+}
+
 fn proof_deviations<S: ShortGroupSignatureScheme + 'static>(em: &mut Emitter, rng: &mut Rng, suite: &str) {
     let n_claims = 4;
     let schema = cred_schema(n_claims, &[]);
@@ -835,6 +889,10 @@ pub fn gen_c06(em: &mut Emitter, rng: &mut Rng) {
     }
     if em.mine(n + 3) {
         batch_orders::<Ps>(em, &mut rng.sub(1004), "ps");
+    }
+    if em.mine(n + 5) {
+        bundle_refresh::<Bbs>(em, &mut rng.sub(1007), "bbs");
+        bundle_refresh::<Ps>(em, &mut rng.sub(1008), "ps");
     }
     if em.mine(n + 4) {
         revocation_claim_position::<Bbs>(em, &mut rng.sub(1005), "bbs", "c06");
